@@ -7,7 +7,7 @@ From SP Require Import Logic.Formula Logic.Tseitin Logic.TseitinProofs.
 From SP Require Import Design.Flat Design.Layout Design.Sem.
 From SP Require Import Encode.Compile Encode.CodeSem Encode.Generic Encode.Blocks Encode.Runs
      Encode.GridLemmas Encode.CrossChunks Encode.LayoutF1 Encode.F1Kinds Encode.F1Cross
-     Encode.F1Deriv Encode.F1Sem.
+     Encode.F1Deriv Encode.F1DerivC Encode.F1Sem.
 Import ListNotations.
 Close Scope Z_scope.
 Open Scope nat_scope.
@@ -80,6 +80,13 @@ Proof.
   - intros x [<-|[<-|[]]]; apply filter_In; auto.
 Qed.
 
+Lemma eval_fvs_ds s (us : list nat) : Forall (fun u => 0 < u) us ->
+  forallb (eval s) (map fv us) = forallb (fun u => s (zn u)) us.
+Proof.
+  intros H. induction H as [|u us Hu _ IH]; [reflexivity|]. cbn [map forallb]. rewrite IH. f_equal.
+  cbn [fv eval]. apply lit_true_pos. unfold zn. lia.
+Qed.
+
 Section F1DerivSem.
 Variable fb : flat.
 Hypothesis HF1 : in_f1 fb = true.
@@ -87,8 +94,7 @@ Hypothesis HT : 0 < T fb.
 
 Let FF : F1facts fb := in_f1_facts fb HF1.
 
-(** the (width 1) arguments of the reference window ([CodeSem.dwin]) of a derived factor of act_design *)
-
+(** the (width 1) arguments of the reference window ([CodeSem.dwin]) of a WithinTrial factor of act_design *)
 Definition cargs (q : tseq) (deps : list nat) (t : nat) : list (list cell) :=
   map (fun d => [get_cell q d t]) deps.
 
@@ -96,26 +102,38 @@ Definition cargs (q : tseq) (deps : list nat) (t : nat) : list (list cell) :=
 Definition lev (q : tseq) (t d : nat) : nat :=
   match get_cell q d t with Some x => x | None => 0 end.
 
-(** * What [in_f1] gives for one factor *)
+(** * What [in_f1] gives for one grid factor (in act_design, no complex window) *)
 Lemma f1_window_shape f fd w :
-  nth_error (fl_design fb) f = Some fd -> ff_window fd = Some w -> isact fb f = true ->
+  nth_error (fl_design fb) f = Some fd -> ff_window fd = Some w -> sact fb f = true ->
   win_width w = 1 /\ win_stride w = 1 /\ win_start w = 0.
 Proof.
-  intros Efd Ew Ha. pose proof (f1_factor fb FF f fd Efd Ha) as H. unfold factor_f1 in H. rewrite Ew in H.
+  intros Efd Ew Hs. apply (sact_split fb) in Hs. destruct Hs as [Ha Hcx].
+  rewrite (is_complex_at fb f fd Efd) in Hcx.
+  pose proof (f1_factor fb FF f fd Efd Ha) as H. unfold factor_f1 in H. rewrite Ew, Hcx in H.
   rewrite !andb_true_iff in H. destruct H as [_ [[H1 H2] H3]].
   apply Nat.eqb_eq in H1, H2, H3. auto.
 Qed.
 
+Lemma f1_deps_facts f fd w :
+  nth_error (fl_design fb) f = Some fd -> ff_window fd = Some w ->
+  Forall (fun dd => sact fb dd = true) (win_deps w).
+Proof.
+  intros Efd Ew. destruct (f1_tables fb FF f fd Efd) as [Htab _]. unfold tables_ok in Htab. rewrite Ew in Htab.
+  apply andb_true_iff in Htab. destruct Htab as [Hlt _]. rewrite forallb_forall in Hlt.
+  apply Forall_forall. intros dd Hdd. now apply Hlt.
+Qed.
+
 Lemma f1_tables_facts f fd w :
-  nth_error (fl_design fb) f = Some fd -> ff_window fd = Some w -> isact fb f = true ->
-  Forall (fun dd => isact fb dd = true) (win_deps w) /\
+  nth_error (fl_design fb) f = Some fd -> ff_window fd = Some w -> sact fb f = true ->
+  Forall (fun dd => sact fb dd = true) (win_deps w) /\
   (forall lv entry, In lv (ff_levels fd) -> In entry (lv_accepts lv) -> entry_ok fb (win_deps w) entry = true).
 Proof.
-  intros Efd Ew Ha. destruct (f1_tables fb FF f fd Efd) as [Htab _]. unfold tables_ok in Htab. rewrite Ew in Htab.
-  apply andb_true_iff in Htab. destruct Htab as [Hlt Hent]. rewrite Ha in Hent. cbn [negb orb] in Hent.
-  rewrite forallb_forall in Hlt, Hent. split.
-  - apply Forall_forall. intros dd Hdd. now apply Hlt.
-  - intros lv entry Hlv He. specialize (Hent lv Hlv). rewrite forallb_forall in Hent. now apply Hent.
+  intros Efd Ew Hs. split; [exact (f1_deps_facts f fd w Efd Ew)|].
+  apply (sact_split fb) in Hs. destruct Hs as [Ha Hcx]. rewrite (is_complex_at fb f fd Efd) in Hcx.
+  destruct (f1_tables fb FF f fd Efd) as [Htab _]. unfold tables_ok in Htab. rewrite Ew in Htab.
+  apply andb_true_iff in Htab. destruct Htab as [_ Hent]. rewrite Ha, Hcx in Hent. cbn [negb orb] in Hent.
+  rewrite forallb_forall in Hent.
+  intros lv entry Hlv He. specialize (Hent lv Hlv). rewrite forallb_forall in Hent. now apply Hent.
 Qed.
 
 Lemma nlevels_design f fd : nth_error (fl_design fb) f = Some fd -> nlevels fb f = length (ff_levels fd).
@@ -141,52 +159,52 @@ Proof.
   change ((1 - 1 - 0) * 1) with 0. cbn [Nat.leb]. now rewrite Nat.sub_0_r.
 Qed.
 
-Lemma applies_f1 f fd t : nth_error (fl_design fb) f = Some fd -> isact fb f = true -> applies (code_factor fb f fd) t = true.
+Lemma applies_f1 f fd t : nth_error (fl_design fb) f = Some fd -> sact fb f = true -> applies (code_factor fb f fd) t = true.
 Proof.
-  intros Efd Ha. unfold applies. destruct (ff_window fd) as [w|] eqn:Ew.
-  - rewrite (code_factor_derived f fd w Ew). cbn [w_start w_stride dwin].
-    destruct (f1_window_shape f fd w Efd Ew Ha) as (_ & H2 & H3). rewrite H2, H3.
-    rewrite Nat.mod_1_r. reflexivity.
-  - now rewrite (code_factor_plain f fd Ew).
+  intros Efd Hs. rewrite (applies_lappl fb HF1 f fd t Efd). apply (sact_lappl fb HF1 f t Hs).
 Qed.
 
-(** the shape part of [onehot]: complete rows, every cell a level *)
+(** the shape part of [onehot]: complete rows, a level exactly where the factor has one *)
 Definition shape (q : tseq) : Prop :=
   length q = nf fb /\ (forall f, f < nf fb -> length (nth f q []) = T fb) /\
-  (forall t f, t < T fb -> isact fb f = true -> exists l, l < nlevels fb f /\ get_cell q f t = Some l).
+  (forall t f, t < T fb -> isact fb f = true -> lappl fb f t = true -> exists l, l < nlevels fb f /\ get_cell q f t = Some l) /\
+  (forall t f, t < T fb -> isact fb f = true -> lappl fb f t = false -> get_cell q f t = None).
 
 Lemma onehot_shape s q : onehot fb s q -> shape q.
-Proof. intros (A & B & C & _). repeat split; assumption. Qed.
+Proof. intros (A & B & C & _ & _ & D). repeat split; assumption. Qed.
 
-(** [factor_ok] of an F1 factor on a one-hot sequence: only the acceptance of
+Lemma shape_cell q t d : shape q -> t < T fb -> sact fb d = true -> exists x, x < nlevels fb d /\ get_cell q d t = Some x.
+Proof. intros (_ & _ & C & _) Ht Hs. destruct (sact_lappl fb HF1 d t Hs) as [Ha Hl]. exact (C t d Ht Ha Hl). Qed.
+
+(** [factor_ok] of a grid factor on a well-shaped sequence: only the acceptance of
     the chosen level of a derived factor remains *)
 Lemma factor_ok_shape q f fd :
-  shape q -> nth_error (fl_design fb) f = Some fd -> isact fb f = true ->
+  shape q -> nth_error (fl_design fb) f = Some fd -> sact fb f = true ->
   (factor_ok (code_sem fb) q f (code_factor fb f fd) = true <->
    forall w, ff_window fd = Some w ->
    forall t l0, t < T fb -> get_cell q f t = Some l0 -> accepts (dwin fd w) l0 (cargs q (win_deps w) t) = true).
 Proof.
-  intros (Hq & Hr & Hc) Efd Ha.
+  intros Hsh Efd Hs. pose proof Hsh as (Hq & Hr & Hc & _).
   pose proof (design_lt f fd Efd) as Hf. pose proof (nlevels_design f fd Efd) as Hnl.
   unfold factor_ok. change (s_trials (code_sem fb)) with (T fb).
   rewrite (Hr f Hf), Nat.eqb_refl, andb_true_l, forallb_forall. split.
   - intros H w Ew t l0 Ht El0.
     specialize (H t (proj2 (in_seq _ _ _) (conj (Nat.le_0_l _) Ht))). rewrite El0 in H.
     rewrite (code_factor_derived f fd w Ew) in H. apply andb_true_iff in H. destruct H as [_ H].
-    destruct (f1_window_shape f fd w Efd Ew Ha) as (H1 & _ & _).
+    destruct (f1_window_shape f fd w Efd Ew Hs) as (H1 & _ & _).
     now rewrite (window_args_f1 q f fd w t H1) in H.
-  - intros H t Ht. apply in_seq in Ht. destruct (Hc t f ltac:(lia) Ha) as (l0 & Hl0 & El0). rewrite El0.
-    rewrite (applies_f1 f fd t Efd Ha). cbn [f_nlevels f_sustain code_factor].
+  - intros H t Ht. apply in_seq in Ht. destruct (shape_cell q t f Hsh ltac:(lia) Hs) as (l0 & Hl0 & El0). rewrite El0.
+    rewrite (applies_f1 f fd t Efd Hs). cbn [f_nlevels f_sustain code_factor].
     rewrite (f1_sustain fb FF f), Nat.div_1_r, Nat.mul_1_r, El0. cbn [cell_eqb]. rewrite Nat.eqb_refl.
     replace (l0 <? length (ff_levels fd)) with true by (symmetry; apply Nat.ltb_lt; lia).
     cbn [andb]. destruct (ff_window fd) as [w|] eqn:Ew; [|now rewrite (code_factor_plain f fd Ew)].
-    destruct (f1_window_shape f fd w Efd Ew Ha) as (H1 & _ & _).
+    destruct (f1_window_shape f fd w Efd Ew Hs) as (H1 & _ & _).
     rewrite (code_factor_derived f fd w Ew).
     rewrite (window_args_f1 q f fd w t H1). apply (H w eq_refl t l0); [lia|exact El0].
 Qed.
 
 Lemma factor_ok_f1 s q f fd :
-  onehot fb s q -> nth_error (fl_design fb) f = Some fd -> isact fb f = true ->
+  onehot fb s q -> nth_error (fl_design fb) f = Some fd -> sact fb f = true ->
   (factor_ok (code_sem fb) q f (code_factor fb f fd) = true <->
    forall w, ff_window fd = Some w ->
    forall t l0, t < T fb -> get_cell q f t = Some l0 -> accepts (dwin fd w) l0 (cargs q (win_deps w) t) = true).
@@ -194,17 +212,18 @@ Proof. intros Ho. apply factor_ok_shape. exact (onehot_shape s q Ho). Qed.
 
 (** * The grid variable of a level is the cell test *)
 Lemma eval_gridvar s q t f l :
-  onehot fb s q -> t < T fb -> isact fb f = true -> l < nlevels fb f ->
+  onehot fb s q -> t < T fb -> sact fb f = true -> l < nlevels fb f ->
   eval s (fv (off fb f + l + t * vpt fb + 1)) = is_level l (get_cell q f t).
 Proof.
-  intros (_ & _ & _ & Hb & _) Ht Hf Hl. rewrite <- (Hb t f l Ht Hf Hl). unfold bit, fv, zn. cbn [eval].
-  replace (off fb f + l + t * vpt fb + 1) with (gvar fb t f l) by (unfold gvar; lia).
-  apply lit_true_pos. pose proof (gvar_pos fb HF1 HT t f l). lia.
+  intros Ho Ht Hs Hl. apply (sact_split fb) in Hs. destruct Hs as [Hf Hcx].
+  rewrite <- (onehot_simple_bit fb HF1 s q t f l Ho Ht Hf Hcx Hl). unfold bit, fv, zn. cbn [eval].
+  replace (off fb f + l + t * vpt fb + 1) with (gvar fb t f l) by (rewrite (gvar_simple fb t f l Hcx); lia).
+  apply lit_true_pos. pose proof (gvar_pos fb t f l). lia.
 Qed.
 
 (** key lemma A: the conjunction generated for a table entry tests the window arguments *)
 Lemma entry_eval s q t deps : forall entry,
-  onehot fb s q -> t < T fb -> Forall (fun d => isact fb d = true) deps -> entry_ok fb deps entry = true ->
+  onehot fb s q -> t < T fb -> Forall (fun d => sact fb d = true) deps -> entry_ok fb deps entry = true ->
   forallb (eval s) (map (fun x => match x with DIdx i => fv (i + t * vpt fb + 1) | DBefore _ => fv 0 end)
                         (entry_deps fb deps entry))
   = args_eqb (cargs q deps t) entry.
@@ -220,7 +239,7 @@ Qed.
 
 (** key lemma B: what the Iff's of one derived level say *)
 Lemma pderiv_char s q f l deps entries :
-  onehot fb s q -> isact fb f = true -> l < nlevels fb f -> Forall (fun dd => isact fb dd = true) deps ->
+  onehot fb s q -> sact fb f = true -> l < nlevels fb f -> Forall (fun dd => sact fb dd = true) deps ->
   (forall entry, In entry entries -> entry_ok fb deps entry = true) ->
   (Pderiv fb (off fb f + l) (map (entry_deps fb deps) entries) s <->
    forall t, t < T fb -> is_level l (get_cell q f t) = existsb (args_eqb (cargs q deps t)) entries).
@@ -272,44 +291,45 @@ Proof.
 Qed.
 
 Lemma accepts_level_accepts_shape q f fd w t l :
-  shape q -> nth_error (fl_design fb) f = Some fd -> ff_window fd = Some w -> isact fb f = true -> t < T fb ->
+  shape q -> nth_error (fl_design fb) f = Some fd -> ff_window fd = Some w -> sact fb f = true -> t < T fb ->
   accepts (dwin fd w) l (cargs q (win_deps w) t) = level_accepts fd l (map (lev q t) (win_deps w)).
 Proof.
-  intros (Hq & Hr & Hc) Efd Ew Ha Ht. pose proof (design_lt f fd Efd) as Hf.
+  intros Hsh Efd Ew Ha Ht. pose proof (design_lt f fd Efd) as Hf.
   destruct (f1_tables_facts f fd w Efd Ew Ha) as [Hlt Hent].
   rewrite accepts_level. unfold level_accepts. destruct (nth_error (ff_levels fd) l) as [lv|] eqn:Elv; [|reflexivity].
   apply existsb_ext_in_ds. intros entry Hentry. apply args_entry_matches.
   - intros d Hd. pose proof (proj1 (Forall_forall _ _) Hlt d Hd) as Hdf. cbv beta in Hdf.
-    destruct (Hc t d Ht Hdf) as (x & _ & Ex). now exists x.
+    destruct (shape_cell q t d Hsh Ht Hdf) as (x & _ & Ex). now exists x.
   - apply (Hent lv entry); [eapply nth_error_In; exact Elv|exact Hentry].
 Qed.
 
 Lemma accepts_level_accepts s q f fd w t l :
-  onehot fb s q -> nth_error (fl_design fb) f = Some fd -> ff_window fd = Some w -> isact fb f = true -> t < T fb ->
+  onehot fb s q -> nth_error (fl_design fb) f = Some fd -> ff_window fd = Some w -> sact fb f = true -> t < T fb ->
   accepts (dwin fd w) l (cargs q (win_deps w) t) = level_accepts fd l (map (lev q t) (win_deps w)).
 Proof. intros Ho. apply accepts_level_accepts_shape. exact (onehot_shape s q Ho). Qed.
 
 (** no two levels accept the arguments of a trial *)
 Lemma accepts_unique_shape q f fd w t l l0 :
-  shape q -> nth_error (fl_design fb) f = Some fd -> ff_window fd = Some w -> isact fb f = true -> t < T fb ->
+  shape q -> nth_error (fl_design fb) f = Some fd -> ff_window fd = Some w -> sact fb f = true -> t < T fb ->
   accepts (dwin fd w) l (cargs q (win_deps w) t) = true ->
   accepts (dwin fd w) l0 (cargs q (win_deps w) t) = true -> l = l0.
 Proof.
-  intros Ho Efd Ew Ha Ht A1 A2.
-  rewrite (accepts_level_accepts_shape q f fd w t l Ho Efd Ew Ha Ht) in A1.
-  rewrite (accepts_level_accepts_shape q f fd w t l0 Ho Efd Ew Ha Ht) in A2.
+  intros Ho Efd Ew Hs Ht A1 A2.
+  rewrite (accepts_level_accepts_shape q f fd w t l Ho Efd Ew Hs Ht) in A1.
+  rewrite (accepts_level_accepts_shape q f fd w t l0 Ho Efd Ew Hs Ht) in A2.
   destruct (Nat.eq_dec l l0) as [E|N]; [exact E|exfalso].
   assert (B : forall k, level_accepts fd k (map (lev q t) (win_deps w)) = true -> k < length (ff_levels fd)).
   { intros k Hk. unfold level_accepts in Hk. apply nth_error_Some. destruct (nth_error (ff_levels fd) k); [discriminate|discriminate Hk]. }
   pose proof (B l A1) as L1. pose proof (B l0 A2) as L2.
-  destruct (f1_tables fb FF f fd Efd) as [_ Hun]. unfold tables_unambiguous in Hun. rewrite Ha, Ew in Hun. cbn [negb orb] in Hun.
+  pose proof Hs as Hs'. apply (sact_split fb) in Hs'. destruct Hs' as [Ha Hcx]. rewrite (is_complex_at fb f fd Efd) in Hcx.
+  destruct (f1_tables fb FF f fd Efd) as [_ Hun]. unfold tables_unambiguous in Hun. rewrite Ha, Ew, Hcx in Hun. cbn [negb orb] in Hun.
   rewrite forallb_forall in Hun. specialize (Hun (map (lev q t) (win_deps w))).
-  destruct Ho as (Hq & Hr & Hc). pose proof (design_lt f fd Efd) as Hf.
-  destruct (f1_tables_facts f fd w Efd Ew Ha) as [Hlt _].
+  pose proof (design_lt f fd Efd) as Hf.
+  destruct (f1_tables_facts f fd w Efd Ew Hs) as [Hlt _].
   assert (Hin : In (map (lev q t) (win_deps w)) (product (map (fun d => seq 0 (nlevels fb d)) (win_deps w)))).
   { apply (in_product_map_ds (lev q t) (nlevels fb)). intros d Hd.
     pose proof (proj1 (Forall_forall _ _) Hlt d Hd) as Hdf. cbv beta in Hdf.
-    destruct (Hc t d Ht Hdf) as (x & Hx & Ex). unfold lev. now rewrite Ex. }
+    destruct (shape_cell q t d Ho Ht Hdf) as (x & Hx & Ex). unfold lev. now rewrite Ex. }
   specialize (Hun Hin). apply Nat.leb_le in Hun.
   pose proof (filter_two_ds (fun k => level_accepts fd k (map (lev q t) (win_deps w))) (seq 0 (length (ff_levels fd))) l l0
                 (seq_NoDup _ _) (proj2 (in_seq _ _ _) (conj (Nat.le_0_l _) L1))
@@ -318,16 +338,15 @@ Proof.
 Qed.
 
 Lemma accepts_unique s q f fd w t l l0 :
-  onehot fb s q -> nth_error (fl_design fb) f = Some fd -> ff_window fd = Some w -> isact fb f = true -> t < T fb ->
+  onehot fb s q -> nth_error (fl_design fb) f = Some fd -> ff_window fd = Some w -> sact fb f = true -> t < T fb ->
   accepts (dwin fd w) l (cargs q (win_deps w) t) = true ->
   accepts (dwin fd w) l0 (cargs q (win_deps w) t) = true -> l = l0.
 Proof. intros Ho. apply accepts_unique_shape. exact (onehot_shape s q Ho). Qed.
 
 (** * The converse of [deriv_shape]: every derived level has its Derivation *)
-Lemma deriv_exists f fd w l :
+Lemma deriv_exists0 f fd w l :
   nth_error (fl_design fb) f = Some fd -> ff_window fd = Some w -> isact fb f = true -> l < length (ff_levels fd) ->
-  exists lv, nth_error (ff_levels fd) l = Some lv /\
-    In (FDerivation (off fb f + l) (map (entry_deps fb (win_deps w)) (lv_accepts lv)) f) (fl_constraints fb).
+  exists d deps, In (FDerivation d deps f) (fl_constraints fb) /\ first_variable_for_level fb f l = Some d.
 Proof.
   intros Efd Ew Hact Hl. pose proof (f1_derivations fb FF) as HD.
   unfold derivations_match in HD. apply andb_true_iff in HD. destruct HD as [HD1 _].
@@ -340,15 +359,25 @@ Proof.
   destruct (nth_error (ff_levels fd) l) as [lv|] eqn:Elv; [|discriminate].
   destruct (first_variable_for_level fb f l) as [v|] eqn:Ev; [|discriminate].
   rewrite !andb_true_iff in HD1. destruct HD1 as [[Hf' Hd] _]. apply Nat.eqb_eq in Hf', Hd. subst f' d.
-  pose proof (design_lt f fd Efd) as Hf. pose proof (nlevels_design f fd Efd) as Hnl.
-  rewrite (f1_first_var fb HF1 f l Hact ltac:(lia)) in Ev. inversion Ev. subst v.
-  destruct (deriv_shape fb HF1 HT _ _ _ Hc) as (fd' & w' & l' & lv' & Efd' & Ew' & Elv' & _ & Hl' & Hd' & Hdeps' & _).
-  assert (fd' = fd) by congruence. subst fd'. assert (w' = w) by congruence. subst w'.
-  assert (l' = l) by lia. subst l'. assert (lv' = lv) by congruence. subst lv'.
-  exists lv. split; [reflexivity|]. rewrite <- Hdeps'. exact Hc.
+  exists v, deps. split; [exact Hc|reflexivity].
 Qed.
 
-(** * Implied factors: [factor_ok] of a derived factor with sustain 1, unfolded *)
+Lemma deriv_exists f fd w l :
+  nth_error (fl_design fb) f = Some fd -> ff_window fd = Some w -> sact fb f = true -> l < length (ff_levels fd) ->
+  exists lv, nth_error (ff_levels fd) l = Some lv /\
+    In (FDerivation (off fb f + l) (map (entry_deps fb (win_deps w)) (lv_accepts lv)) f) (fl_constraints fb).
+Proof.
+  intros Efd Ew Hs Hl. pose proof Hs as Hs'. apply (sact_split fb) in Hs'. destruct Hs' as [Hact Hcx].
+  destruct (deriv_exists0 f fd w l Efd Ew Hact Hl) as (d & deps & Hc & Ev).
+  pose proof (nlevels_design f fd Efd) as Hnl.
+  rewrite (f1_first_var fb HF1 f l Hact ltac:(lia)), Hcx in Ev. inversion Ev. subst d.
+  destruct (deriv_shape fb HF1 HT _ _ _ Hc Hcx) as (fd' & w' & l' & lv' & Efd' & Ew' & Elv' & _ & Hl' & Hd' & Hdeps' & _).
+  assert (fd' = fd) by congruence. subst fd'. assert (w' = w) by congruence. subst w'.
+  assert (l' = l) by lia. subst l'.
+  exists lv'. split; [exact Elv'|]. rewrite <- Hdeps'. exact Hc.
+Qed.
+
+(** * [factor_ok] of a derived factor with sustain 1, unfolded (implied factors, complex windows) *)
 Lemma factor_ok_impl q f fd w :
   nth_error (fl_design fb) f = Some fd -> ff_window fd = Some w -> length (nth f q []) = T fb ->
   (factor_ok (code_sem fb) q f (code_factor fb f fd) = true <->
@@ -382,39 +411,179 @@ Qed.
 (** on a one-hot grid the windows over the sequence and over the decoded act rows coincide *)
 Lemma onehot_window_args s q f fd w t :
   onehot fb s q -> ff_window fd = Some w -> win_width w - 1 <= win_start w ->
-  Forall (fun d => isact fb d = true) (win_deps w) -> t < T fb ->
+  Forall (fun d => sact fb d = true) (win_deps w) -> t < T fb ->
   applies (code_factor fb f fd) t = true ->
   window_args q (code_factor fb f fd) (dwin fd w) t = window_args (dec_act fb s) (code_factor fb f fd) (dwin fd w) t.
 Proof.
   intros Ho Ew W3 Hd Ht Hap. apply (impl_window_ext fb HF1 HT q (dec_act fb s) f fd w t W3 Hap Ew).
-  intros d t' Hin Ht'. pose proof (proj1 (Forall_forall _ _) Hd d Hin) as Hda. cbv beta in Hda.
+  intros d t' Hin Ht'. pose proof (proj1 (Forall_forall _ _) Hd d Hin) as Hds. cbv beta in Hds.
+  destruct (sact_lappl fb HF1 d t' Hds) as [Hda _].
   rewrite (dec_act_cell fb s t' d ltac:(lia) (f1_act_lt fb HF1 d Hda)).
   apply (onehot_cell_act fb s q t' d Ho ltac:(lia) Hda).
 Qed.
 
+(** * Factors of act_design with a complex window *)
+Lemma col_eval s q width n d : forall col s0,
+  onehot fb s q -> n < T fb -> sact fb d = true ->
+  (forall c, In c col -> exists x, c = Some x /\ x < nlevels fb d) ->
+  forallb (fun v => s (zn v))
+          (map (fun jc => gvar fb (n - (width - 1 - fst jc)) d (lev_of' (snd jc))) (combine (seq s0 (length col)) col))
+  = list_eqb cell_eqb (map (fun j => get_cell q d (n - (width - 1 - j))) (seq s0 (length col))) col.
+Proof.
+  induction col as [|c col IH]; intros s0 Ho Hn Hs Hc; [reflexivity|].
+  cbn [length seq combine map forallb list_eqb fst snd].
+  destruct (Hc c (or_introl eq_refl)) as (x & -> & Hx). cbn [lev_of'].
+  pose proof Hs as Hs'. apply (sact_split fb) in Hs'. destruct Hs' as [Ha Hcx].
+  change (s (zn (gvar fb (n - (width - 1 - s0)) d x))) with (bit fb s (n - (width - 1 - s0)) d x).
+  rewrite (onehot_simple_bit fb HF1 s q (n - (width - 1 - s0)) d x Ho ltac:(lia) Ha Hcx Hx). unfold is_level.
+  f_equal. apply IH; try assumption. intros c' Hc'. apply Hc. now right.
+Qed.
+
+Lemma entry_eval_c s q width n : forall deps entry,
+  onehot fb s q -> n < T fb -> Forall (fun d => sact fb d = true) deps -> entryw_ok fb width deps entry = true ->
+  forallb (fun v => s (zn v)) (concat (map2 (col_cvars fb width n) deps entry))
+  = args_eqb (map (fun d => map (fun j => get_cell q d (n - (width - 1 - j))) (seq 0 width)) deps) entry.
+Proof.
+  induction deps as [|d deps IH]; intros [|col entry] Ho Hn Hd He; cbn [entryw_ok] in He; try discriminate; [reflexivity|].
+  apply andb_true_iff in He. destruct He as [Hc He]. inversion Hd as [|a1 a2 Hdd Hds]. subst a1 a2.
+  cbn [map2 concat map]. rewrite forallb_app. unfold args_eqb in *. cbn [list_eqb]. f_equal; [|now apply IH].
+  destruct (colw_cells fb width d col Hc) as [Hlen Hcells]. unfold col_cvars.
+  rewrite (col_eval s q width n d col 0 Ho Hn Hdd).
+  - now rewrite Hlen.
+  - intros c Hin. destruct (In_nth col c None Hin) as (j & Hj & Ej).
+    apply (Hcells j c). rewrite <- Ej.
+    assert (G : forall (l : list (option nat)) s0 i, i < length l -> In (s0 + i, nth i l None) (combine (seq s0 (length l)) l)).
+    { induction l as [|y l IHl]; intros s0 i Hi; [cbn in Hi; lia|]. cbn [length seq combine]. destruct i as [|i].
+      - left. now rewrite Nat.add_0_r.
+      - right. replace (s0 + S i) with (S s0 + i) by lia. cbn [nth]. apply IHl. cbn [length] in Hi. lia. }
+    exact (G col 0 j Hj).
+Qed.
+
+Section Complex.
+Variables (f : nat) (fd : ffactor) (w : fwindow).
+Hypothesis Efd : nth_error (fl_design fb) f = Some fd.
+Hypothesis Ew : ff_window fd = Some w.
+Hypothesis Ha : isact fb f = true.
+Hypothesis Hcx : ff_complex fd = true.
+
+Lemma cx_w3 : win_width w - 1 <= win_start w.
+Proof. destruct (complex_facts fb HF1 f fd Efd Ha Hcx) as (w' & Ew' & _ & _ & W3 & _). congruence. Qed.
+
+Lemma cx_deps : Forall (fun d => sact fb d = true) (win_deps w).
+Proof. exact (f1_deps_facts f fd w Efd Ew). Qed.
+
+Lemma cx_window_in q n : shape q -> n < T fb -> lappl fb f n = true ->
+  In (window_args q (code_factor fb f fd) (dwin fd w) n) (all_args fb w).
+Proof.
+  intros Hsh Hn Hap. apply (impl_window_in fb HF1 HT q f fd w n cx_w3); [now rewrite (applies_lappl fb HF1 f fd n Efd)|exact Ew|].
+  intros d t' Hd Ht'. apply (shape_cell q t' d Hsh ltac:(lia)). exact (proj1 (Forall_forall _ _) cx_deps d Hd).
+Qed.
+
+(** what the equivalences of one level say *)
+Lemma pderivc_char s q l lv :
+  onehot fb s q -> l < nlevels fb f ->
+  Forall (fun entry => entryw_ok fb (win_width w) (win_deps w) entry = true) (lv_accepts lv) ->
+  (eval s (FAnd (cx_iffs fb w f l (lv_accepts lv))) = true <->
+   forall n, n < T fb -> lappl fb f n = true ->
+     is_level l (get_cell q f n) = existsb (args_eqb (window_args q (code_factor fb f fd) (dwin fd w) n)) (lv_accepts lv)).
+Proof.
+  intros Ho Hl Hent. pose proof Ho as (_ & _ & _ & Hb & _).
+  unfold cx_iffs. cbn [eval]. rewrite forallb_map_forall_ds.
+  assert (K : forall n, n < T fb -> lappl fb f n = true ->
+            eval s (cx_iff fb w f l (lv_accepts lv) n)
+            = Bool.eqb (is_level l (get_cell q f n))
+                       (existsb (args_eqb (window_args q (code_factor fb f fd) (dwin fd w) n)) (lv_accepts lv))).
+  { intros n Hn Hap. unfold cx_iff. cbn [eval]. f_equal.
+    - unfold fv. cbn [eval]. rewrite lit_true_pos by (pose proof (gvar_pos fb n f l); unfold zn; lia).
+      exact (Hb n f l Hn Ha Hap Hl).
+    - rewrite existsb_map_ds. apply existsb_ext_in_ds. intros e He. cbn [eval].
+      pose proof (proj1 (Forall_forall _ _) Hent e He) as Hok. cbv beta in Hok.
+      rewrite (eval_fvs_ds s (entry_cvars fb w n e)).
+      + unfold entry_cvars. rewrite (entry_eval_c s q (win_width w) n (win_deps w) e Ho Hn cx_deps Hok).
+        rewrite (impl_window_args fb HF1 HT q f fd w n cx_w3); [reflexivity| |exact Ew].
+        now rewrite (applies_lappl fb HF1 f fd n Efd).
+      + eapply Forall_impl; [|exact (entry_cvars_ok fb HF1 HT w f fd n e Efd Ew Ha Hcx cx_deps Hok Hn Hap)].
+        intros a [Ha' _]. exact Ha'. }
+  split.
+  - intros H n Hn Hap. specialize (H n (proj2 (in_trials_of fb f 0 (T fb) n) (conj (conj (Nat.le_0_l _) Hn) Hap))).
+    rewrite (K n Hn Hap) in H. now apply eqb_prop.
+  - intros H n Hin. apply in_trials_of in Hin. destruct Hin as [[_ Hn] Hap].
+    rewrite (K n Hn Hap), (H n Hn Hap). apply eqb_reflx.
+Qed.
+
+(** no two levels accept the window of a trial *)
+Lemma accepts_unique_c q n l l0 :
+  shape q -> n < T fb -> lappl fb f n = true -> l < nlevels fb f -> l0 < nlevels fb f ->
+  accepts (dwin fd w) l (window_args q (code_factor fb f fd) (dwin fd w) n) = true ->
+  accepts (dwin fd w) l0 (window_args q (code_factor fb f fd) (dwin fd w) n) = true -> l = l0.
+Proof.
+  intros Hsh Hn Hap L1 L2 A1 A2. destruct (Nat.eq_dec l l0) as [E|N]; [exact E|exfalso].
+  destruct (f1_tables fb FF f fd Efd) as [_ Hun]. unfold tables_unambiguous in Hun. rewrite Ha, Ew, Hcx in Hun. cbn [negb orb] in Hun.
+  rewrite forallb_forall in Hun. specialize (Hun _ (cx_window_in q n Hsh Hn Hap)). apply Nat.leb_le in Hun.
+  rewrite <- (nlevels_design f fd Efd) in Hun.
+  pose proof (filter_two_ds (fun k => accepts (dwin fd w) k (window_args q (code_factor fb f fd) (dwin fd w) n))
+                (seq 0 (nlevels fb f)) l l0 (seq_NoDup _ _)
+                (proj2 (in_seq _ _ _) (conj (Nat.le_0_l _) L1)) (proj2 (in_seq _ _ _) (conj (Nat.le_0_l _) L2)) N A1 A2) as H2.
+  lia.
+Qed.
+
+(** every level has its Derivation *)
+Lemma deriv_exists_c l :
+  l < nlevels fb f ->
+  exists lv d deps, nth_error (ff_levels fd) l = Some lv /\ In (FDerivation d deps f) (fl_constraints fb) /\
+    derivc_formulas fb d deps f = cx_iffs fb w f l (lv_accepts lv) /\
+    Forall (fun entry => entryw_ok fb (win_width w) (win_deps w) entry = true) (lv_accepts lv).
+Proof.
+  intros Hl. pose proof (nlevels_design f fd Efd) as Hnl.
+  destruct (deriv_exists0 f fd w l Efd Ew Ha ltac:(lia)) as (d & deps & Hc & Ev).
+  assert (Hcf : is_complex fb f = true) by (rewrite (is_complex_at fb f fd Efd); exact Hcx).
+  rewrite (f1_first_var fb HF1 f l Ha Hl), Hcf in Ev. inversion Ev. subst d.
+  destruct (derivc_formulas_eq fb HF1 HT _ deps f Hc Hcf) as (fd' & w' & l' & lv' & Efd' & Ew' & Elv' & _ & _ & Hl' & Hd' & _ & He' & _ & EF).
+  assert (fd' = fd) by congruence. subst fd'. assert (w' = w) by congruence. subst w'.
+  assert (l' = l) by lia. subst l'.
+  exists lv', (GN fb + coff fb f + l), deps. split; [exact Elv'|]. split; [exact Hc|]. split; [exact EF|exact He'].
+Qed.
+
+End Complex.
+
 (** * The theorem *)
 Theorem factors_sem s q :
   onehot fb s q ->
-  ((forall d deps f, In (FDerivation d deps f) (fl_constraints fb) -> Pderiv fb d deps s) <->
+  ((forall d deps f, In (FDerivation d deps f) (fl_constraints fb) -> Pderiv_any fb d deps f s) <->
    forallb (fun p => factor_ok (code_sem fb) q (fst p) (snd p)) (index_list (s_factors (code_sem fb))) = true).
 Proof.
-  intros Ho. pose proof Ho as (Hq & Hr & Hc & Hb & Himp).
+  intros Ho. pose proof Ho as (Hq & Hr & Hc & Hb & Himp & Hnone). pose proof (onehot_shape s q Ho) as Hsh.
   change (s_factors (code_sem fb))
     with (map (fun p => code_factor fb (fst p) (snd p)) (combine (seq 0 (length (fl_design fb))) (fl_design fb))).
   rewrite (forallb_index_map_ds (code_factor fb) (factor_ok (code_sem fb) q) (fl_design fb)).
   split.
   - intros H f fd Efd. pose proof (design_lt f fd Efd) as Hf. pose proof (nlevels_design f fd Efd) as Hnl.
-    destruct (isact fb f) eqn:Hact.
-    + apply (factor_ok_f1 s q f fd Ho Efd Hact). intros w Ew t l0 Ht El0.
-      destruct (Hc t f Ht Hact) as (l1 & Hl1 & El1). rewrite El0 in El1. inversion El1. subst l1.
-      destruct (f1_tables_facts f fd w Efd Ew Hact) as [Hlt Hent].
-      destruct (deriv_exists f fd w l0 Efd Ew Hact ltac:(lia)) as (lv & Elv & Hin).
-      specialize (H _ _ _ Hin).
+    destruct (isact fb f) eqn:Hact; [destruct (ff_complex fd) eqn:Hcx|].
+    + (* a factor of act_design with a complex window *)
+      destruct (complex_facts fb HF1 f fd Efd Hact Hcx) as (w & Ew & _).
+      assert (Hcf : is_complex fb f = true) by (rewrite (is_complex_at fb f fd Efd); exact Hcx).
+      apply (factor_ok_impl q f fd w Efd Ew (Hr f Hf)). intros t Ht.
+      rewrite (applies_lappl fb HF1 f fd t Efd). destruct (lappl fb f t) eqn:Hap.
+      * destruct (Hc t f Ht Hact Hap) as (l0 & Hl0 & El0). rewrite El0. split; [reflexivity|]. split; [exact Hl0|].
+        destruct (deriv_exists_c f fd w Efd Ew Hact Hcx l0 Hl0) as (lv & d & deps & Elv & Hin & EF & Hent).
+        specialize (H _ _ _ Hin). unfold Pderiv_any in H. rewrite Hcf in H. unfold Pderivc in H. rewrite EF in H.
+        pose proof (proj1 (pderivc_char f fd w Efd Ew Hact Hcx s q l0 lv Ho Hl0 Hent) H t Ht Hap) as H'.
+        rewrite accepts_level, Elv, <- H', El0. unfold is_level. cbn [cell_eqb]. apply Nat.eqb_refl.
+      * now rewrite (Hnone t f Ht Hact Hap).
+    + (* a grid factor *)
+      assert (Hs : sact fb f = true) by (apply (sact_split fb); split; [exact Hact|now rewrite (is_complex_at fb f fd Efd)]).
+      assert (Hcf : is_complex fb f = false) by (rewrite (is_complex_at fb f fd Efd); exact Hcx).
+      apply (factor_ok_f1 s q f fd Ho Efd Hs). intros w Ew t l0 Ht El0.
+      destruct (shape_cell q t f Hsh Ht Hs) as (l1 & Hl1 & El1). rewrite El0 in El1. inversion El1. subst l1.
+      destruct (f1_tables_facts f fd w Efd Ew Hs) as [Hlt Hent].
+      destruct (deriv_exists f fd w l0 Efd Ew Hs ltac:(lia)) as (lv & Elv & Hin).
+      specialize (H _ _ _ Hin). unfold Pderiv_any in H. rewrite Hcf in H.
       assert (He : forall entry, In entry (lv_accepts lv) -> entry_ok fb (win_deps w) entry = true).
       { intros entry Hentry. apply (Hent lv entry); [eapply nth_error_In; exact Elv|exact Hentry]. }
-      pose proof (proj1 (pderiv_char s q f l0 (win_deps w) (lv_accepts lv) Ho Hact Hl1 Hlt He) H) as H'.
+      pose proof (proj1 (pderiv_char s q f l0 (win_deps w) (lv_accepts lv) Ho Hs Hl1 Hlt He) H) as H'.
       rewrite accepts_level, Elv, <- (H' t Ht), El0. unfold is_level. cbn [cell_eqb]. apply Nat.eqb_refl.
-    + destruct (implied_facts fb HF1 HT f Hf Hact) as (fd' & w & Efd' & Ew & Hdeps & W1 & W2 & W3 & Htot).
+    + (* an implied factor *)
+      destruct (implied_facts fb HF1 HT f Hf Hact) as (fd' & w & Efd' & Ew & Hdeps & W1 & W2 & W3 & Htot).
       assert (fd' = fd) by congruence. subst fd'.
       apply (factor_ok_impl q f fd w Efd Ew (Hr f Hf)). intros t Ht.
       rewrite (Himp t f Ht Hf Hact). unfold cell_impl, factor_at. rewrite Efd, Ew.
@@ -427,20 +596,33 @@ Proof.
         unfold appl, cell_impl, factor_at in P. rewrite Efd, Ew, Hap in P.
         rewrite <- (onehot_window_args s q f fd w t Ho Ew W3 Hdeps Ht Hap), El in P.
         destruct P as (l & _ & Q). discriminate.
-  - intros H d deps f Hin.
-    destruct (deriv_shape fb HF1 HT d deps f Hin) as (fd & w & l & lv & Efd & Ew & Elv & Hf & Hl & -> & -> & Hlt & Hent).
-    apply (pderiv_char s q f l (win_deps w) (lv_accepts lv) Ho Hf Hl).
-    + exact Hlt.
-    + intros entry Hentry. exact (proj1 (Forall_forall _ _) Hent entry Hentry).
-    + intros t Ht. destruct (Hc t f Ht Hf) as (l0 & Hl0 & El0). rewrite El0.
-      pose proof (proj1 (factor_ok_f1 s q f fd Ho Efd Hf) (H f fd Efd) w Ew t l0 Ht El0) as Hacc.
+  - intros H d deps f Hin. unfold Pderiv_any. destruct (is_complex fb f) eqn:Hcf.
+    + destruct (derivc_formulas_eq fb HF1 HT d deps f Hin Hcf) as (fd & w & l & lv & Efd & Ew & Elv & Hf & Hcx & Hl & _ & _ & Hent & _ & EF).
+      unfold Pderivc. rewrite EF. apply (pderivc_char f fd w Efd Ew Hf Hcx s q l lv Ho Hl Hent).
+      intros n Hn Hap. destruct (Hc n f Hn Hf Hap) as (l0 & Hl0 & El0). rewrite El0.
+      pose proof (proj1 (factor_ok_impl q f fd w Efd Ew (Hr f (design_lt f fd Efd))) (H f fd Efd) n Hn) as Hok.
+      rewrite El0 in Hok. destruct Hok as (_ & _ & Hacc).
       unfold is_level. cbn [cell_eqb]. destruct (l0 =? l) eqn:E.
       * apply Nat.eqb_eq in E. subst l0. rewrite accepts_level, Elv in Hacc. now symmetry.
       * symmetry. apply not_true_is_false. intros Hex.
-        assert (Hacc' : accepts (dwin fd w) l (cargs q (win_deps w) t) = true)
+        assert (Hacc' : accepts (dwin fd w) l (window_args q (code_factor fb f fd) (dwin fd w) n) = true)
           by (rewrite accepts_level, Elv; exact Hex).
-        pose proof (accepts_unique s q f fd w t l l0 Ho Efd Ew Hf Ht Hacc' Hacc) as El. subst l0.
+        pose proof (accepts_unique_c f fd w Efd Ew Hf Hcx q n l l0 Hsh Hn Hap Hl Hl0 Hacc' Hacc) as El. subst l0.
         rewrite Nat.eqb_refl in E. discriminate.
+    + destruct (deriv_shape fb HF1 HT d deps f Hin Hcf) as (fd & w & l & lv & Efd & Ew & Elv & Hf & Hl & -> & -> & Hlt & Hent).
+      assert (Hs : sact fb f = true) by (apply (sact_split fb); now split).
+      apply (pderiv_char s q f l (win_deps w) (lv_accepts lv) Ho Hs Hl).
+      * exact Hlt.
+      * intros entry Hentry. exact (proj1 (Forall_forall _ _) Hent entry Hentry).
+      * intros t Ht. destruct (shape_cell q t f Hsh Ht Hs) as (l0 & Hl0 & El0). rewrite El0.
+        pose proof (proj1 (factor_ok_f1 s q f fd Ho Efd Hs) (H f fd Efd) w Ew t l0 Ht El0) as Hacc.
+        unfold is_level. cbn [cell_eqb]. destruct (l0 =? l) eqn:E.
+        -- apply Nat.eqb_eq in E. subst l0. rewrite accepts_level, Elv in Hacc. now symmetry.
+        -- symmetry. apply not_true_is_false. intros Hex.
+           assert (Hacc' : accepts (dwin fd w) l (cargs q (win_deps w) t) = true)
+             by (rewrite accepts_level, Elv; exact Hex).
+           pose proof (accepts_unique s q f fd w t l l0 Ho Efd Ew Hs Ht Hacc' Hacc) as El. subst l0.
+           rewrite Nat.eqb_refl in E. discriminate.
 Qed.
 
 End F1DerivSem.
